@@ -81,6 +81,9 @@ def build_precond(model, cfg, dp_group, mp_group, pp_group=None):
     for k in ('inv_dtype', 'factor_dtype'):
         if cfg.get(k):
             kw[k] = getattr(torch, cfg[k])
+    if cfg.get('grad_scale'):
+        # a static loss scale (a power of two: scaling and unscaling are exact), as AMP applies
+        kw['grad_scaler'] = lambda s=float(cfg['grad_scale']): s
     import warnings
     with warnings.catch_warnings():
         warnings.simplefilter('ignore')
@@ -146,7 +149,7 @@ def rank_body(cfg, history, observe=None):
                     q.grad = None
                 for mi in range(e[1]):
                     for li, (kind, nin, nout, hb) in enumerate(cfg['layers']):
-                        x, wts = data(cfg, li, step, mi, d_)
+                        x, wts = data(cfg if len(e) < 3 else dict(cfg, data_seed=cfg.get('data_seed', 0) + e[2]), li, step, mi, d_)
                         if kind == 'col':
                             xin = x.to(dtype)
                             w_l = wts[:, m_ * (nout // M):(m_ + 1) * (nout // M)].to(dtype)
@@ -154,7 +157,10 @@ def rank_body(cfg, history, observe=None):
                             xin = x[:, m_ * (nin // M):(m_ + 1) * (nin // M)].to(dtype)
                             w_l = wts.to(dtype)
                         out = mods[li](xin.clone().requires_grad_(True))
-                        (out * w_l).sum().backward()
+                        (out * w_l).sum().mul(float(cfg.get('grad_scale') or 1.0)).backward()
+                if cfg.get('grad_scale'):
+                    for q in model.parameters():
+                        q.grad.div_(float(cfg['grad_scale']))          # unscale before averaging / preconditioning
                 # DDP-style averaging over the data-parallel group
                 if D > 1:
                     for q in model.parameters():
